@@ -91,3 +91,19 @@ Theorem C37_unindexed_change_refuted :
       behind w' /\ snd (fst (round w' clean0)) = OSkipped.
 Proof. exact unindexed_change_refuted. Qed.
 Print Assumptions C37_unindexed_change_refuted.
+
+(* Second tie (DESIGN 3.5, docs/gotrans.md): Uploader.upload as translated from auto/backup/uploader.go on this run
+   leaves lastIndex, reports an error and calls its provider / storage in the order of the hand model's round
+   (gen_upload = the generated function with the outside calls instantiated from the model's world and
+   environment; kinds_of_effects = the recorded provider / storage calls).  Premise: strconv.FormatUint(_, 10) is
+   injective and never yields the string standing for "not a number". *)
+From Coq Require Import ZArith String.
+From RQ Require Import Lib.GoLib Gen.Uploader Proofs.C37_Gen.
+Theorem C37_source_derived_eq : forall (fmt : Z -> Z -> string) (nonum : string),
+  (forall a b, fmt a 10%Z = fmt b 10%Z -> a = b) -> (forall a, fmt a 10%Z <> nonum) ->
+  forall (now : Z) w e,
+    Uploader_lastIndex _ _ _ (fst (fst (gen_upload fmt nonum now w e))) = Z.of_N (w_last (fst (fst (round w e)))) /\
+    isSome (snd (fst (gen_upload fmt nonum now w e))) = is_error (snd (fst (round w e))) /\
+    kinds_of_effects (snd (gen_upload fmt nonum now w e)) = map (kind_of_call fmt) (snd (round w e)).
+Proof. exact gen_upload_eq. Qed.
+Print Assumptions C37_source_derived_eq.
